@@ -58,6 +58,10 @@ CHECKS = {
                 technique="deterministic simulation: generated estimate-call histories with structural zeros plus simulator-chosen RNG outcomes for synthetic records; zero-mass invariants after every step",
                 text="estimators configured with structural zeros on measured cliques, sub-cliques and unmeasured attribute groups are driven through seeded histories (three solvers, cold and warm start, interrupts); for every returned model every declared cell must carry <= 1e-50*total in in-clique and out-of-clique answers and the full vector, nothing is NaN, everything sums to total, and synthetic_data under adversarial SimRNG outcomes puts no record in a declared cell.",
                 note="1e-50 threshold because RDA/IG refit parameters through log(mu+1e-100) by design"),
+    "C20": dict(engine="primitives", ref="3 (Engine G)",
+                technique="seam observation under the simulated PRNG (no schedule or fault: the fake PRNG is where the calibrated probabilities and scales are visible exactly); repeated-call histories on the caller's objects",
+                text="every selection primitive (Mechanism.exponential_mechanism array/dict/base-measure, mst and adaptive_grid exponential_mechanism incl. monotonic and eps=inf, MWEM worst_approximated bounded/penalty) is called with the SimRNG on its prng seam; the p= vector it hands to choice() is compared in log space with the definition evaluated in extended precision, for score magnitudes up to 1e6, ties, constant shifts, dicts built in different insertion orders and 1-3 calls on the same caller arrays (which must stay unmodified); scale helpers and samplers are checked by the (loc, scale, size) they pass on.",
+                note="least simulation-like check (DESIGN.md Engine G): the quantifier is over inputs and short call histories; autodp is stubbed (sentinel sigma)"),
     "C02": dict(engine="query-hist", ref="3 (Engine B)",
                 technique="deterministic simulation: generated query/cache/save-load histories with I/O fault injection, refinement against the explicit joint",
                 text="seeded histories of project / calculate_many_marginals / krondot / datavector / save+load on one model object (direct parameters or returned by estimate); after every operation the answer is compared with the explicit joint in the requested axis order; save/load goes through an in-memory file system that injects write errors, lost tails and read errors.",
